@@ -610,6 +610,8 @@ class Path:
             if v.pos == 0:
                 return v.seq
             return self.seq_slice(v.seq, v.pos, None)
+        if isinstance(v, loops.SFilter):
+            return loops.filter_to_seq(self, v)
         if isinstance(v, loops.SCat):
             if all(not (isinstance(p, tuple) and p and isinstance(p[0], loops.SFlat)) for p in v.parts):
                 out = []
